@@ -100,7 +100,7 @@ func c03ReadCheck(cl btpb.BigtableClient, t c03Table, rs model.RowSet, limit int
 }
 
 func runC03(run *common.Run) {
-	run.Rule = "case = one ReadRows with one RowSet (ranges with each bound unset/open/closed over the 7-key adversarial universe, optional explicit key, rows_limit) against one table content on one engine, result compared with the set-union model and the chunk-stream state machine. Enumerated sub-space: quick = all 225 single ranges x 8 key options x 4 limits x 3 tables, plus all ordered pairs of a 60-range stratified subset; thorough = ALL 225^2 range pairs x 8 key options (exhaustive for 'two ranges plus one key'). Non-trivial = result is a non-empty strict subset of the table, or an inverted range; distinct by (rowset, limit, table, engine). Further parts: duplicate/many-range sets, multi-message streams with limits at message boundaries and row-dropping filters, SampleRowKeys invariants."
+	run.Rule = "case = one ReadRows with one RowSet (ranges with each bound unset/open/closed over the 7-key adversarial universe, optional explicit key, rows_limit) against one table content on one engine, result compared with the set-union model and the chunk-stream state machine. Enumerated sub-space: quick = all 225 single ranges x 8 key options x 4 limits x 3 tables, plus all ordered pairs of a 60-range stratified subset; thorough = ALL 225^2 range pairs x 8 key options (exhaustive for 'two ranges plus one key'). Non-trivial = result is a non-empty strict subset of the table, or an inverted range; distinct by (rowset, limit, table, engine). Further parts: duplicate/many-range sets, multi-message streams with limits at message boundaries and row-dropping filters, row sets of up to 1500 keys and 1100 ranges over a 3000-row table, SampleRowKeys invariants."
 	run.Assumptions = []string{"an empty key inside a bound is not generated (the universe has none)", "inverted = start key > end key as raw bytes, both set"}
 	j := common.NewJournal("C03")
 	for ei, engine := range drive.Engines {
@@ -393,6 +393,55 @@ func c03Streams(run *common.Run, srv *drive.Srv, engine string, ei int) {
 				w := sel(func(i int) bool { return (i >= lo && i < lo+10) || (i > 2000 && i <= 2600) }, 15)
 				return w
 			}()})
+	}
+	// large row sets: tens to thousands of explicit keys (unsorted, duplicated, some absent from the table) and of
+	// small ranges (overlapping, adjacent, duplicated, every bound mode), with limits; expectation = set-union model
+	nbig := run.N(24, 300)
+	for b := 0; b < nbig; b++ {
+		r := run.Rand("C03.bigset", b) // the same sets on every engine
+		var rs model.RowSet
+		nk := common.Pick(r, []int{0, 3, 50, 400, 1500})
+		for k := 0; k < nk; k++ {
+			i := r.Intn(N + 200) // keys beyond N do not exist
+			key := bigKey(i)
+			if r.Chance(1, 30) {
+				key += "\x00" // between two stored keys
+			}
+			rs.Keys = append(rs.Keys, key)
+		}
+		nr := common.Pick(r, []int{0, 1, 40, 300, 1100})
+		if nk == 0 && nr == 0 {
+			nr = 40
+		}
+		for k := 0; k < nr; k++ {
+			lo := r.Intn(N)
+			hi := lo + r.Intn(12)
+			rg := model.Range{Start: model.Bound{Mode: 1 + r.Intn(2), Key: bigKey(lo)}, End: model.Bound{Mode: 1 + r.Intn(2), Key: bigKey(hi)}}
+			if r.Chance(1, 40) {
+				rg.Start.Mode = 0
+				rg.End.Key = bigKey(r.Intn(30))
+			}
+			if r.Chance(1, 40) {
+				rg.End.Mode = 0
+				rg.Start.Key = bigKey(N - 1 - r.Intn(30))
+			}
+			rs.Ranges = append(rs.Ranges, rg)
+			if r.Chance(1, 10) {
+				rs.Ranges = append(rs.Ranges, rg)
+			}
+		}
+		want := rs.Select(allKeys)
+		limit := common.Pick(r, []int{0, 0, 1, 17, len(want) - 1, len(want), len(want) + 1, 1025})
+		if limit < 0 {
+			limit = 0
+		}
+		if limit > 0 && len(want) > limit {
+			want = want[:limit]
+		}
+		cases = append(cases, sc{fmt.Sprintf("big row set #%d: %d keys, %d ranges, limit=%d", b, len(rs.Keys), len(rs.Ranges), limit),
+			&btpb.ReadRowsRequest{TableName: name, Rows: drive.RowSetToProto(rs), RowsLimit: int64(limit)}, want})
+		run.Max("max_keys_in_one_row_set", int64(len(rs.Keys)))
+		run.Max("max_ranges_in_one_row_set", int64(len(rs.Ranges)))
 	}
 	for ci, c := range cases {
 		idx := ei*1000 + ci
